@@ -5,6 +5,7 @@ open Vx
 open C05Model
 open C05FragModel
 open C05CodecModel
+open C05SegModel
 
 let hexn s = n_of_hex s
 let hn n = hex_of_n n
@@ -155,6 +156,111 @@ let case_h id cfg opss obs =
   let m = Buffer.contents b in
   if m = obs then Printf.printf "OK %s\n" id else Printf.printf "MISMATCH %s model=%s\n" id m
 
+(* ---- G cases: a whole segment as a box stream *)
+let parse_xbox (s : string) : xbox =
+  match split_on '.' s with
+  | [k; sz; first; refs] ->
+    let kind = (match k with "s" -> XStyp | "x" -> XSidx | "e" -> XEmsg | _ -> XOther) in
+    let rl = if refs = "-" then [] else
+        L.map (fun r -> match split_on ':' r with
+            | [t; z] -> { sr_type = hexn t; sr_size = hexn z }
+            | _ -> failwith ("bad ref " ^ r)) (split_on '/' refs) in
+    { x_kind = kind; x_size = hexn sz; x_first = hexn first; x_refs = rl }
+  | _ -> failwith ("bad xbox " ^ s)
+
+let parse_xboxes (s : string) : xbox list = if s = "-" then [] else L.map parse_xbox (split_on ',' s)
+
+let case_g id cfg frss obs =
+  let c = kv cfg in
+  let g k = L.assoc k c in
+  let opt = (g "o" = "1") in
+  let head = parse_xboxes (g "head") in
+  let frs = split_on '#' frss in
+  (* every fragment is built and encoded by the model *)
+  let items = L.map (fun fs ->
+      match split_on '@' fs with
+      | [fcfg; opss; pre; post; between] ->
+        let fc = kv fcfg in
+        let fg k = L.assoc k fc in
+        let tracks = hexlist (fg "t") in
+        let pre = parse_xboxes pre and post = parse_xboxes post and between = parse_xboxes between in
+        let fr0 = if fg "m" = "1" then create_multi tracks else create_fragment (L.hd tracks) in
+        let fr0 = with_extras fr0 (xsum pre) (hexn (fg "mx")) (xsum post) (hexlist (fg "tx")) in
+        let ops = if opss = "-" then [] else L.map parse_op (split_on ';' opss) in
+        let (classes, fro) = run_ops fr0 (L.map fst ops) in
+        let lazy_data = L.concat (L.map2 (fun (_, d) cl -> if cl = COk then d else [])
+                                    (L.filteri (fun i _ -> i < L.length classes) ops) classes) in
+        (match fro with
+         | None -> None
+         | Some fr ->
+           (match encode_frag opt fr with
+            | Base.Ok fe -> Some { ei_pre = pre; ei_fe = fe; ei_post = post; ei_lz = lazy_data; ei_between = between }
+            | _ -> None))
+      | _ -> failwith "bad fragment spec") frs in
+  let m =
+    if L.exists (fun o -> o = None) items then "model-does-not-encode"
+    else begin
+      let its = L.map (function Some i -> i | None -> assert false) items in
+      let b = Buffer.create 256 in
+      let fr = L.map item_framed its in
+      Buffer.add_string b ("fr=" ^ S.concat "" (L.map (fun x -> if x then "1" else "0") fr));
+      if L.for_all (fun x -> x) fr then begin
+        let r = seg_decode (g "f0" = "1") (hexn (g "p0")) (seg_stream head its) in
+        Buffer.add_string b ("|dec=" ^ res_class r);
+        (match r with
+         | Base.Ok st ->
+           Buffer.add_string b ("|segs=" ^ S.concat "," (L.map (fun sg ->
+               (if sg.dg_styp then "1" else "0") ^ "." ^ string_of_int_hex (L.length sg.dg_frags)) (L.rev st.fs_segs)));
+           Buffer.add_string b ("|frags=" ^ S.concat "," (L.map (fun f ->
+               (match f.dr_moof with Some (p, _) -> hn p | None -> "-") ^ "." ^
+               (match f.dr_mdat with Some (p, _) -> hn p | None -> "-")) (file_frags st)));
+           if g "rd" = "1" then begin
+           Buffer.add_string b "|rd=";
+           let trexs = split_on ',' (g "trex") in
+           let q name tx =
+             let r = seg_read st tx in
+             Buffer.add_string b (" R" ^ name ^ "=" ^ res_class r);
+             (match r with Base.Ok l -> Buffer.add_string b (":" ^ full_string l) | _ -> ()) in
+           q "n" None;
+           L.iteri (fun i s -> let t = n_of_int (i + 1) in q (hn t) (parse_trex t s)) trexs
+           end
+         | _ -> ())
+      end;
+      Buffer.contents b
+    end in
+  if m = obs then Printf.printf "OK %s\n" id else Printf.printf "MISMATCH %s model=%s\n" id m
+
+(* ---- B cases: malformed sequences of top-level boxes; "m" is the moof of the fixed single-track fragment *)
+let case_b id cfg opstr toks obs =
+  let c = kv cfg in
+  let g k = L.assoc k c in
+  let (o, _) = parse_op opstr in
+  let fe = match run_ops (create_fragment (n_of_int 1)) [o] with
+    | (_, Some fr) -> (match encode_frag false fr with Base.Ok fe -> fe | _ -> failwith "fixed fragment does not encode")
+    | _ -> failwith "fixed fragment does not build" in
+  let boxes = L.map (fun t ->
+      if t = "m" then TMoof (moof_size fe, wire_trafs fe)
+      else if S.length t > 0 && t.[0] = 'd' then
+        let n = int_of_string ("0x" ^ S.sub t 1 (S.length t - 1)) in
+        TMdat (n_of_int 8, L.init n (fun _ -> N0))
+      else TX (parse_xbox t)) (split_on ',' toks) in
+  let r = seg_decode (g "f0" = "1") (hexn (g "p0")) boxes in
+  let b = Buffer.create 128 in
+  Buffer.add_string b ("dec=" ^ res_class r);
+  (match r with
+   | Base.Ok st ->
+     Buffer.add_string b ("|segs=" ^ S.concat "," (L.map (fun sg ->
+         (if sg.dg_styp then "1" else "0") ^ "." ^ string_of_int_hex (L.length sg.dg_frags)) (L.rev st.fs_segs)));
+     let tx k = Some { tx_track = n_of_int k; tx_ddur = N0; tx_dsize = N0; tx_dflags = N0 } in
+     Buffer.add_string b ("|frags=" ^ S.concat "," (L.map (fun f ->
+         (match f.dr_moof with Some (p, _) -> hn p | None -> "-") ^ "." ^
+         (match f.dr_mdat with Some (p, _) -> hn p | None -> "-") ^ "." ^
+         res_class (seg_get_full f None) ^ res_class (seg_get_full f (tx 1)) ^ res_class (seg_get_full f (tx 2)))
+         (file_frags st)))
+   | _ -> ());
+  let m = Buffer.contents b in
+  if m = obs then Printf.printf "OK %s\n" id else Printf.printf "MISMATCH %s model=%s\n" id m
+
 (* ---- D cases: box decoders *)
 let rec drop n l = if n = 0 then l else match l with [] -> [] | _ :: t -> drop (n - 1) t
 let rec take n l = if n = 0 then [] else match l with [] -> [] | x :: t -> x :: take (n - 1) t
@@ -180,5 +286,7 @@ let () =
       | ["O"; id; opt; tfs; trs; smps; txs; obs] -> case_o id opt tfs trs smps txs obs
       | ["H"; id; cfg; ops; obs] -> case_h id cfg ops obs
       | ["D"; id; kind; boxhex; obs] -> case_d id kind boxhex obs
+      | ["G"; id; cfg; frs; obs] -> case_g id cfg frs obs
+      | ["B"; id; cfg; op; toks; obs] -> case_b id cfg op toks obs
       | "STAT" :: _ -> ()
       | _ -> Printf.printf "BADLINE %s\n" (if S.length line > 80 then S.sub line 0 80 else line))
